@@ -294,6 +294,15 @@ func (x *g) expr(t ty, d int) string {
 	case tMap:
 		if x.chance(0.3) {
 			if ms := x.vars(tMap); len(ms) > 0 {
+				// a caller-supplied map on either side, next to a small or an empty literal
+				switch x.pick(5) {
+				case 0:
+					return "augmentMap(['b': " + x.expr(tStr, d-1) + "], " + x.use(ms[0]) + ")"
+				case 1:
+					return "augmentMap(" + x.use(ms[0]) + ", [:])"
+				case 2:
+					return "augmentMap([:], " + x.use(ms[0]) + ")"
+				}
 				return "augmentMap(" + x.use(ms[0]) + ", ['b': " + x.expr(tStr, d-1) + "])"
 			}
 		}
@@ -527,7 +536,13 @@ func (x *g) node(depth int) *Node {
 		return n
 	case k < 77 && !leaf:
 		name := x.fresh("l")
-		n := &Node{K: "letc", Var: name, Body: x.block(depth+1, 2, false)}
+		n := &Node{K: "letc", Var: name}
+		if x.o.Msgs && x.chance(0.3) {
+			// a content block that holds nothing but text and a message
+			n.Body = []*Node{{K: "text", S: x.text()}, {K: "msg", S: "in a block", Body: []*Node{{K: "text", S: words[x.pick(len(words))] + " " + words[x.pick(len(words))]}}}}
+		} else {
+			n.Body = x.block(depth+1, 2, false)
+		}
 		x.scope = append(x.scope, svar{ref: "$" + name, t: tStr, root: name})
 		return n
 	case k < 86:
@@ -589,7 +604,7 @@ func (x *g) placeholder() *Node {
 		}
 		if len(cands) > 0 {
 			if x.o.MapLiterals && x.chance(0.3) {
-				return &Node{K: "print", E: x.mapLit(1) + "[" + Quote("b") + "]"}
+				return &Node{K: "print", E: x.mapLit(1)} // (the parser has no indexing of a literal)
 			}
 			c := cands[x.pick(len(cands))]
 			x.used[c.root] = true
@@ -754,13 +769,18 @@ func (x *g) call(depth int) *Node {
 			}
 			if ok {
 				n.Data = "$m"
+				if x.chance(0.5) {
+					// a data expression that is not a plain reference; params are bound on top of it
+					n.Data = []string{"augmentMap($m, [:])", "augmentMap([:], $m)", "augmentMap($m, ['b': 'over'])"}[x.pick(3)]
+				}
 				x.used["m"] = true
 				need = map[string]bool{}
 			}
 		}
 	}
+	dataExpr := strings.HasPrefix(n.Data, "augmentMap")
 	for _, p := range s.params {
-		if !need[p.Name] && !(p.Optional && x.chance(0.3)) {
+		if !need[p.Name] && !(p.Optional && x.chance(0.3)) && !(dataExpr && x.chance(0.5)) {
 			continue
 		}
 		if need[p.Name] && x.o.DropRequired > 0 && x.chance(x.o.DropRequired) {
@@ -864,6 +884,7 @@ func Generate(seed uint64, o Opts) *Case {
 	files := make([]*File, nf)
 	var slots []slot
 	tn := 0
+	taken := map[string]bool{}
 	for i := 0; i < nf; i++ {
 		f := &File{Name: fmt.Sprintf("f%d.soy", i), Namespace: fmt.Sprintf("app.f%d", i)}
 		switch x.pick(6) {
@@ -884,7 +905,13 @@ func Generate(seed uint64, o Opts) *Case {
 		}
 		files[i] = f
 		for j, n := 0, 1+x.pick(o.MaxTemplates); j < n; j++ {
-			slots = append(slots, slot{i, fmt.Sprintf("t%d", tn)})
+			name := fmt.Sprintf("t%d", tn)
+			// now and then a short name that other namespaces use too
+			if short := fmt.Sprintf("s%d", j); x.chance(0.3) && !taken[f.Namespace+"."+short] {
+				name = short
+			}
+			taken[f.Namespace+"."+name] = true
+			slots = append(slots, slot{i, name})
 			tn++
 		}
 	}
